@@ -8,4 +8,22 @@ def instances():
                         defs=["VX_OP=%d" % op], stubs=FMT_STUBS + CTX_STUBS + [s for s in CONTAINER_STUBS if "Complex" not in s], unwind=4, unwindset=EMPTY_DECL_UNWIND, timeout=400,
                         bounds="one operation from an arbitrary consistent state of 3 handles over 2 objects (inductive step over histories)",
                         inputs="which object each handle shares, which handles the operation is applied to"))
+    PTUS = [t for t in CORE_TUS] + ["blocc/expression_complex_ctor.cpp", "blocc/statement_import.cpp", "blocc/plugin.cpp"]
+    combos = [("A", "A", "B", 1), ("A", "B", "A", 5), ("A", "A", "B", 3), ("AB", "A", "AB", 4), ("A", "B", "B", 5), ("A", "A", "A", 7), ("A", "A", "B", 0), ("AB", "AB", "A", 1),
+              ("A", "AB", "B", 5), ("A", "A", "B", 7), ("B", "A", "B", 6), ("A", "A", "B", 2)]
+    for k, (mn, g1, g2, hist) in enumerate(combos):
+        out.append(Inst(id="c16.ctor.gate.%d" % k, props=["C16", "C01"], harness="h_c16.cpp", entry="c16_ctor", tus=PTUS,
+                        defs=["VX_GATE=1", 'VX_MOD="%s"' % mn, 'VX_G1="%s"' % g1, 'VX_G2="%s"' % g2, "VX_HIST=%d" % hist], stubs=FMT_STUBS + CTX_STUBS + CONTAINER_STUBS, unwind=4, unwindset=EMPTY_DECL_UNWIND,
+                        truncate_long=True, timeout=600, mem_gb=8, tier="quick" if k < 7 else "thorough",
+                        bounds="module name %s; history: %s%s%s (instance parameters); the text after the name is not a call" % (mn, "grant %s; " % g1 if hist & 1 else "", "clear; " if hist & 2 else "", "grant %s" % g2 if hist & 4 else ""),
+                        inputs="trusted flag"))
+        out.append(Inst(id="c16.ctor.full.%d" % k, props=["C16", "C01"], harness="h_c16.cpp", entry="c16_ctor", tus=PTUS,
+                        defs=['VX_MOD="%s"' % mn, 'VX_G1="%s"' % g1, 'VX_G2="%s"' % g2, "VX_HIST=%d" % hist], stubs=FMT_STUBS + CTX_STUBS + CONTAINER_STUBS, unwind=4, unwindset=EMPTY_DECL_UNWIND,
+                        truncate_long=True, timeout=3000, mem_gb=16, tier="thorough",
+                        bounds="as the gate kernel, with an arbitrary token stream of <= 2 arguments after the name", inputs="trusted flag, tokens, stub results"))
+    out.append(Inst(id="c16.import", props=["C16", "C01"], harness="h_c16.cpp", entry="c16_import", tus=PTUS, stubs=FMT_STUBS + CTX_STUBS + CONTAINER_STUBS, unwind=4, unwindset=EMPTY_DECL_UNWIND,
+                    truncate_long=True,
+                    timeout=600, bounds="arbitrary first tokens over 5 token kinds", inputs="trusted flag, tokens, type of the path expression"))
+    out.append(Inst(id="c16.flags", props=["C16", "C14"], harness="h_c16.cpp", entry="c16_flags", tus=PTUS, stubs=FMT_STUBS + CTX_STUBS + CONTAINER_STUBS, unwind=3, unwindset=EMPTY_DECL_UNWIND,
+                    timeout=600, bounds="empty context", inputs="trusted flag, another flag"))
     return out
